@@ -238,7 +238,7 @@ func init() {
 		Phases: []Phase{
 			{Name: "hostile atom pairs in every cell position", Exhaustive: true, N: Fixed(n*n*3*2, n*n*3*2), Run: c08Positions},
 			{Name: "all alignment assignments to column 0 and 3 columns x 2 tables", Exhaustive: true, N: Fixed(512, 512), Run: c08Alignments},
-			{Name: "random tables", N: Fixed(5000, 400000), Run: c08Random},
+			{Name: "random tables", N: Fixed(5000, 3000000), Run: c08Random},
 		},
 	})
 }
